@@ -56,7 +56,7 @@ def run(c):
          name="as read: GSS branches hard-wire AUTH_SUCCESSFUL", workers=1, env=A.JVM)
     if not c.quick:
         for sw in ({"BlobOmits": "sid"}, {"BlobOmits": "user"}, {"BlobOmits": "service"}, {"BlobOmits": "alg"},
-                   {"BlobOmits": "key"}, {"KeepsResultAfterBadSig": True}, {"KeepsResultOnForeignLabel": True}, {"PkOkCachesApproval": True}, {"EmptyListPromotesPartial": True}, {"OnlyConstantsReject": True},
+                   {"BlobOmits": "key"}, {"KeepsResultAfterBadSig": True}, {"KeepsResultOnForeignLabel": True}, {"PkOkCachesApproval": True}, {"EmptyListPromotesPartial": True}, {"OnlyConstantsReject": True}, {"BlobUsesCurrentHash": True},
                    {"ProbeAuthenticates": True}):
             c.mc("ServerAuth", A.mc_cfg(A.consts(MaxDepth=4, ConfigSel={"plain"}, **sw)), expect="GrantNeedsApproval",
                  name="sensitivity: %s" % sw, workers=1, env=A.JVM)
@@ -105,6 +105,19 @@ def run(c):
         ("gssapi-with-mic", {"gss": True, "bound": True},
          [R(method="gssapi-with-mic"), {"k": "gss_token", "tok": "done"}, {"k": "gss_mic", "cb": "partial"}]),
     ]
+    # after a key re-exchange the session identifier is still the FIRST exchange hash: a signature over the latest
+    # exchange hash in its place is a signature with the session id changed (before any re-exchange the two are the same
+    # bytes); the correct signature over the session id is sent too (acceptance is conformance only) - each key type once
+    for i, pk in enumerate(sorted(A.PK_VARIANTS)):
+        rk = [{"k": "rekey", "tok": ("client", "server")[i % 2]}]
+        for nrk, sig in ((1, "cur_hash"), (2, "cur_hash"), (1, "good"), (0, "cur_hash")):
+            if c.quick and (nrk, sig) != (1, "cur_hash") and (i + nrk) % 4 != 0:
+                continue
+            sq = rk * nrk + [R(method="publickey", cb="ok", sig=sig, pk=pk), R(method="none", cb="fail")]
+            if nrk == 2:
+                sq[1] = {"k": "rekey", "tok": ("server", "client")[i % 2]}
+            jobs.append({"bursts": A.single(sq), "opts": {}, "names": A.DEFAULT_NAMES, "key": "rekey-sig|%s|%d|%s" % (pk, nrk, sig),
+                         "sample": i == 0 and nrk == 1})
     # a callback that returns none of the three documented constants (None from a missing return, an unknown int, a
     # string, an object) has not returned success: never a grant, whatever the method - fixed stratum
     for wi, (name, o, seq) in enumerate(partial_ways):
